@@ -10,6 +10,8 @@ CONSTANTS
   Plus = "logaddexp"
   Times = "add"
   LeafKind = "log"
+  CopyCap = 99
+  ElimAll = FALSE
   Param = FALSE
   Tag = "sp_logaddexp3"
 INVARIANT Inv_OracleInputs
